@@ -75,4 +75,45 @@ def c04(rep, spec):
     _report(rep, spec, "partial pressures", jobs, descr)
 
 
-BURSTS = {"C04": c04, "C13": c13, "C14": c14, "C15": c15}
+def c02(rep, spec):
+    """one shared Pervaporation object per mixture, different states and models from different threads"""
+    from pyvaporation.membrane import Membrane
+    from pyvaporation.mixtures import Composition, Mixtures
+    from pyvaporation.permeance import Permeance
+    from pyvaporation.pervaporation import Pervaporation
+
+    rng = random.Random(f"threads:C02:{spec['seed']}:{spec['shard']}")
+    mix = getattr(Mixtures, rng.choice(["H2O_EtOH", "H2O_MeOH", "H2O_iPOH"]))
+    pv = Pervaporation(Membrane("M"), mix)
+    jobs, descr = [], []
+    for _ in range(6):
+        x, t, model = rng.uniform(0.1, 0.9), rng.uniform(310, 350), rng.choice(["NRTL", "UNIQUAC"])
+        tp = rng.choice([None, t - 60.0])
+        pp = None if tp is not None else rng.choice([None, 0.2])
+        p1, p2 = gen.loguniform(rng, 1e-3, 1e-1), gen.loguniform(rng, 1e-4, 1e-2)
+
+        def job(x=x, t=t, model=model, tp=tp, pp=pp, p1=p1, p2=p2):
+            j = pv.calculate_partial_fluxes(t, Composition(p=x, type="weight"), 1e-6, tp, pp, Permeance(value=p1), Permeance(value=p2), model)
+            return (float(j[0]), float(j[1]))
+
+        jobs.append(job)
+        descr.append([mix.name, model, t, x, tp, pp, p1, p2])
+    _report(rep, spec, "flux calculation on one shared object", jobs, descr)
+
+
+def c12(rep, spec):
+    rng = random.Random(f"threads:C12:{spec['seed']}:{spec['shard']}")
+    from pyvaporation.mixtures import Mixtures
+
+    mix = getattr(Mixtures, rng.choice(gen.BUILTIN_MIXTURES))
+    mem = gen.gen_membrane(rng, mix)
+    jobs, descr = [], []
+    for _ in range(6):
+        t = rng.uniform(280, 400)
+        comp = rng.choice([mix.first_component, mix.second_component])
+        jobs.append(lambda t=t, comp=comp: mem.get_permeance(t, comp).value)
+        descr.append([comp.name, t])
+    _report(rep, spec, "membrane permeance lookup on one shared membrane", jobs, descr)
+
+
+BURSTS = {"C02": c02, "C04": c04, "C12": c12, "C13": c13, "C14": c14, "C15": c15}
